@@ -437,6 +437,9 @@ fn c20(ctx: &Ctx, rep: &mut Report) {
             rep.sample(J::obj(vec![("state", state.to_json()), ("macros", J::Int(19)), ("paths", J::strs(&args))]));
         }
     }
+    if ctx.shard == 0 {
+        unreadable_contents(&root, rep);
+    }
     capture_panic_checks(ctx, rep);
     drop(sb);
 }
@@ -487,6 +490,59 @@ fn strip_owner(t: &NTree, _like: &NTree) -> NTree {
         n.gid = OWNER;
     }
     t
+}
+
+/// Files whose bytes read_all cannot return (not UTF-8): the predicate "the file holds this text" is false for every
+/// text, the empty one included, so assert_vfs_read_all! panics - naming itself and the path - while the macros that
+/// only look at the kind still pass. An empty file and a text file next to it keep their ordinary verdicts.
+fn unreadable_contents(root: &str, rep: &mut Report) {
+    fn run<V: VirtualFileSystem>(v: &V, backend: &str, dir: &str, rep: &mut Report) {
+        let _ = v.mkdir_p(dir);
+        let (bin, empty, text) = (format!("{}/bin", dir), format!("{}/empty", dir), format!("{}/text", dir));
+        let _ = v.write_all(&bin, [0xffu8, 0xfe, 0x00, 0x80]);
+        let _ = v.write_all(&empty, b"");
+        let _ = v.write_all(&text, "héllo\n");
+        let cases: Vec<(&str, M, &str, &str, bool)> = vec![
+            ("binary,empty-text", M::ReadAll, bin.as_str(), "", false),
+            ("binary,some-text", M::ReadAll, bin.as_str(), "x", false),
+            ("binary,lossy-text", M::ReadAll, bin.as_str(), "\u{fffd}\u{fffd}\u{0}\u{fffd}", false),
+            ("binary", M::IsFile, bin.as_str(), "", true),
+            ("binary", M::Exists, bin.as_str(), "", true),
+            ("binary", M::NoFile, bin.as_str(), "", false),
+            ("empty,empty-text", M::ReadAll, empty.as_str(), "", true),
+            ("empty,some-text", M::ReadAll, empty.as_str(), "x", false),
+            ("text,equal-text", M::ReadAll, text.as_str(), "héllo\n", true),
+            ("text,empty-text", M::ReadAll, text.as_str(), "", false),
+            ("text,prefix", M::ReadAll, text.as_str(), "héllo", false),
+        ];
+        for (what, m, p, data, expect_pass) in cases {
+            rep.eval();
+            let r = invoke(v, m, p, "", data, 0);
+            rep.key_str(&format!("{}|{}|contents:{}|{}", mname(m), backend, what, expect_pass));
+            let wit = J::obj(vec![
+                ("backend", J::s(backend)),
+                ("macro", J::s(format!("{}(vfs, {:?}, {:?})", mname(m), p, data))),
+                ("file", J::s(what)),
+                ("got", J::s(match &r {
+                    Ok(()) => "passed".to_string(),
+                    Err(m) => format!("panicked: {}", m),
+                })),
+            ]);
+            if r.is_ok() != expect_pass {
+                rep.violation(&format!("macro:{}({},contents:{}):{}→{}", mname(m), backend, what, if expect_pass { "pass" } else { "panic" }, if r.is_ok() { "pass" } else { "panic" }), wit);
+            } else if let Err(msg) = &r {
+                if !msg.contains(mname(m)) {
+                    rep.violation(&format!("macro:{}:message-names-macro→other-name", mname(m)), wit);
+                } else if !msg.contains(p) {
+                    rep.violation(&format!("macro:{}:message-names-path→missing", mname(m)), wit);
+                }
+            }
+        }
+    }
+    run(&Memfs::new(), "memfs", "/u", rep);
+    run(&Vfs::memfs(), "vfs-memfs", "/u", rep);
+    wipe(root);
+    run(&Stdfs::new(), "stdfs", &format!("{}/u", root), rep);
 }
 
 fn capture_panic_checks(ctx: &Ctx, rep: &mut Report) {
